@@ -148,7 +148,16 @@ def nest_texts(draw):
             lines.append("%sglobal %s" % (ind, draw(st.sampled_from(names)))) if not any(l.startswith(ind) and "=" in l for l in lines[-3:]) else None
         used = [n for n in names if draw(st.booleans())] or [draw(st.sampled_from(names))]
         lines.append("%su%d = %s" % (ind, d, " + ".join(used)))
-    tail = draw(st.sampled_from(["none", "comp", "lambda_free", "inner_def"]))
+    tail = draw(st.sampled_from(["none", "comp", "lambda_free", "inner_def", "comps_out_of_visit_order"]))
+    if tail == "comps_out_of_visit_order":
+        # several comprehensions in one expression whose AST field order is not their textual order
+        a, b, c = (draw(st.sampled_from(names)) for _ in range(3))
+        lines.append(draw(st.sampled_from([
+            "%sw = [i for i in %s] if any(j for j in %s) else {k for k in %s}",
+            "%sw = {'k': [i for i in %s], tuple(j for j in %s): 1, 2: [k for k in %s]}",
+            "%sw = [i for i in %s] if [j for j in %s] else [k for k in %s] if %s else 0".replace("%s else 0", "0 else 0"),
+            "%sw = sum(i for i in %s) < len([j for j in %s]) < max(k for k in %s)",
+        ])) % (ind, a, b, c))
     if tail == "comp":
         lines.append("%sw = [%s for i in %s]" % (ind, draw(st.sampled_from(names)), draw(st.sampled_from(names))))
     elif tail == "inner_def":
@@ -586,6 +595,33 @@ def evaluate(case, env):
                             break
                     if bad:
                         break
+
+        # (4c) an offset inside a comprehension (its first target) is held by that comprehension's scope
+        from rope.base import exceptions as rex
+
+        if not bad and not c08_hazard:
+            for ref, rp in pairs:
+                if ref.kind != "comp" or rp is None or not getattr(ref.node, "generators", None):
+                    continue
+                tgt = ref.node.generators[0].target
+                off = starts[tgt.lineno - 1] + len(lines[tgt.lineno - 1].encode("utf-8")[: tgt.col_offset].decode("utf-8"))
+                out.evals += 1
+                try:
+                    g3 = gscope.get_inner_scope_for_offset(off)
+                except rex.RopeError:
+                    out.notes["offset_variant_refused"] += 1
+                    continue
+                except Exception as e:
+                    vio("holding_scope_raised:" + type(e).__name__, "offset %d: %r" % (off, e))
+                    break
+                out.labels["offset_inside_comprehension"] += 1
+                if g3 is not rp:
+                    vio(
+                        "holding_scope_offset:comp",
+                        "offset %d (%r, line %d) lies in the comprehension of line %d; rope answers %s at line %s"
+                        % (off, src[off:off + 12], tgt.lineno, ref.start, _rope_kind(g3) if g3 is not None else None, g3.get_start() if g3 is not None else None),
+                    )
+                    break
 
     deep = any(r.parent is not None and r.parent.parent is not None for r, _ in pairs) or nscopes >= 3
     if deep and feats & {"global", "nonlocal", "comprehension", "kwonly"} or any(r.kind == "class" and r.parent.kind == "function" for r, _ in pairs if r.parent is not None):
